@@ -104,7 +104,7 @@ Qed.
 Lemma change_lease_source c x r m m' l :
   change c x r m m' -> m_lease m' = Some l -> m_lease m = Some l \/ In l (item_leases r).
 Proof.
-  intros H L. destruct H as [E | _ _ E | route target b ttl lid m0 _ _ _ Hin E | k lid _ _ _ _ _ _ _ E | k _ _ _ E].
+  intros H L. destruct H as [E | _ _ _ E | route target b ttl lid m0 _ _ _ Hin _ E | k lid _ _ _ _ _ _ _ E | k _ _ _ E].
   - subst. left. exact L.
   - subst. discriminate.
   - subst. simpl in L. inversion L; subst. right. apply (item_pairs_leases r (m_id m)). exact Hin.
